@@ -35,25 +35,26 @@ fn text_is(s: &str, from: usize, expected: &str) -> bool {
     s.as_bytes()[from + j] == expected.as_bytes()[j]
 }
 
-fn single_observation(kind: u8) {
+fn single_observation(kind: u8, unit_sel: u8) {
     let mut b = bufs();
     stubs::reset_logs();
     let mult: Option<u64> = if kani::any() { Some(kani::any()) } else { None };
     let m = mult.unwrap_or(1);
     let v_u: u64 = kani::any();
     let v_f: f64 = kani::any();
+    // Repeated: both operands of `total / occurrences` are symbolic, so they are kept to 4 significant bits each
+    // (8 + 8 bits did not finish in 20 minutes)
     let total = short_f64();
+    kani::assume(total.to_bits() & ((1u64 << 48) - 1) == 0);
     let occ8: u8 = kani::any();
     let occ_shift: u8 = kani::any();
-    kani::assume(occ_shift <= 40);
+    kani::assume(occ8 < 16 && occ_shift <= 40);
     let occ: u64 = (occ8 as u64) << occ_shift;
     let obs = match kind {
         0 => Observation::Unsigned(v_u),
         1 => Observation::Floating(v_f),
         _ => Observation::Repeated { total, occurrences: occ },
     };
-    let unit_sel: u8 = kani::any();
-    kani::assume(unit_sel < 5);
     let unit = match unit_sel {
         0 => Unit::None,
         1 => Unit::Count,
@@ -74,9 +75,9 @@ fn single_observation(kind: u8) {
     assert!(ok);
     let (int_n, flt_n) = unsafe { (stubs::INT_N, stubs::FLT_N) };
     let is_usable = usable(obs);
-    kani::cover!(is_usable && mult.is_some() && flag_sel == 1 && unit_sel == 2, "sampled, high-resolution, unit-carrying metric");
-    kani::cover!(!is_usable, "unusable observation");
-    kani::cover!(kind == 2 && occ == 0, "zero occurrences");
+    kani::cover!(is_usable && mult.is_some() && flag_sel == 1, "sampled, high-resolution metric");
+    kani::cover!(kind == 0 || !is_usable, "unusable observation (kinds that can be unusable)");
+    kani::cover!(kind != 2 || occ == 0, "zero occurrences (repeated kind)");
     if !is_usable {
         assert!(b.fields.as_str().len() == pre, "metrics with no usable observation appear nowhere (fields)");
         assert!(b.metrics.is_empty(), "metrics with no usable observation appear nowhere (declaration)");
@@ -143,37 +144,27 @@ fn single_observation(kind: u8) {
     }
 }
 
-emf_harness! {
-// @check C03 quick timeout=900 mem=14
-// @encodes emf::ValueWriter::write_metric, write_metric_value, write_observation, write_float, clamp_to_finite, MetricFlags::downcast, Unit::name, json_string
-// @bounds one Unsigned(any u64) observation; multiplicity None or Some(any u64); unit in {None, Count, Milliseconds, Custom("x"), Custom(quote backslash)}; flags in {none, high-resolution, no-metric}
-// @oracle recorded value == v, recorded count == multiplicity (list form iff sampled); declaration text equals the expected literal for (unit, flag), absent for no-metric
+macro_rules! single {
+    ($($name:ident: $kind:expr, $unit:expr;)*) => { $(
+        emf_harness! {
+        pub fn $name() {
+            single_observation($kind, $unit)
+        }
+        }
+    )* };
+}
+
+// @check C03 quick filter=c03::single:: timeout=1200 mem=14
+// @encodes emf::ValueWriter::write_metric, write_metric_value, write_observation (mean, saturating count), write_float, clamp_to_finite, MetricFlags::downcast, Unit::name, json_string
+// @bounds one observation per harness kind: Unsigned(any u64) / Floating(any f64 incl. NaN, +-inf, subnormals) / Repeated{total with 4 free mantissa bits at any exponent incl. NaN and inf, occurrences m<<s (m<16, s<=40) incl. 0}; multiplicity None or Some(any u64); unit case-split over {None, Count, Milliseconds, Custom("x"), Custom(quote+backslash)} (15 harnesses); flags symbolic in {none, high-resolution, no-metric}
+// @oracle recorded value == v / clamp(v) / clamp(total/occurrences, 0 for zero occurrences) bit-for-bit; recorded count == multiplicity resp. occurrences.saturating_mul(multiplicity) (list form iff sampled or repeated); NaN => nothing written or declared; declaration text equals the expected literal for (unit, flag) - so a custom unit is JSON-escaped - and is absent for no-metric
 // @stubs tracing x4, Instant::now, alloc::fmt::format, String::push/push_str/shrink_to, Vec::extend_from_slice, itoa::Buffer::format (recording), dtoa::Buffer::format_finite (recording)
-// @outside timestamp, namespace replication, dimension sets and split records (finish()/config(), behind hashbrown)
-pub fn single_unsigned() {
-    single_observation(0)
-}
-}
-
-emf_harness! {
-// @check C03 quick timeout=900 mem=14
-// @encodes emf::ValueWriter::write_metric, write_metric_value, write_observation, write_float, clamp_to_finite
-// @bounds one Floating(any f64 incl. NaN, +-inf, subnormals); multiplicity None or Some(any u64); 5 units x 3 flags
-// @oracle NaN => nothing written or declared; otherwise recorded value bit-equal to clamp(v) (+-inf -> +-f64::MAX), count == multiplicity
-// @stubs tracing x4, Instant::now, alloc::fmt::format, String::push/push_str/shrink_to, Vec::extend_from_slice, itoa::Buffer::format, dtoa::Buffer::format_finite
-pub fn single_floating() {
-    single_observation(1)
-}
-}
-
-emf_harness! {
-// @check C03 quick timeout=1800 mem=14
-// @encodes emf::ValueWriter::write_metric, write_metric_value, write_observation (mean, saturating count)
-// @bounds one Repeated{total, occurrences}: total with 8 free mantissa bits (all exponents, NaN, inf), occurrences = m<<s (m<256, s<=40) incl. 0; multiplicity None or Some(any u64)
-// @oracle value bit-equal to clamp(total/occurrences) (0 when occurrences == 0), count == occurrences.saturating_mul(multiplicity); NaN total with occurrences>0 => nothing written
-// @stubs tracing x4, Instant::now, alloc::fmt::format, String::push/push_str/shrink_to, Vec::extend_from_slice, itoa::Buffer::format, dtoa::Buffer::format_finite
-// @outside totals/occurrence counts needing more than 8 significant bits (two symbolic IEEE dividers)
-pub fn single_repeated() {
-    single_observation(2)
-}
+// @outside timestamp, namespace replication, dimension sets and split records (finish()/config()); Repeated totals/occurrence counts needing more than 4 significant bits (two symbolic/symbolic IEEE dividers: code and oracle)
+pub mod single {
+    use super::*;
+    single! {
+        unsigned_none: 0, 0; unsigned_count: 0, 1; unsigned_millis: 0, 2; unsigned_custom: 0, 3; unsigned_custom_quote: 0, 4;
+        floating_none: 1, 0; floating_count: 1, 1; floating_millis: 1, 2; floating_custom: 1, 3; floating_custom_quote: 1, 4;
+        repeated_none: 2, 0; repeated_count: 2, 1; repeated_millis: 2, 2; repeated_custom: 2, 3; repeated_custom_quote: 2, 4;
+    }
 }
